@@ -54,14 +54,33 @@ def gen_bytes(rnd, kind, n):
     return bytes((i * 7) & 255 for i in range(n))
 
 
-def make_tree(root, rnd, nfiles, max_size=120000):
+TREE_SHAPES = ['random', 'single_nested', 'single_top', 'deep_only', 'one_per_dir', 'two_same_name', 'empty_files']
+
+
+def make_tree(root, rnd, nfiles, max_size=120000, shape='random'):
+    """shape: 'random' (files spread over a fixed set of directories) or one of the degenerate trees where the tool takes special
+    paths: a single file below a sub-directory, a single file at the top, no file at the top level, one file per directory,
+    two files of the same name in different directories, only empty files"""
     os.makedirs(root, exist_ok=True)
     dirs = ['', 'sub', 'sub/deep', 'other dir', '.hidden']
     sizes = [0, 1, 15, 16, 1000, 4096, 65536, 70001]
+    fixed = None
+    if shape == 'single_nested':
+        nfiles, dirs = 1, [rnd.choice(['sub/deep', 'sub', 'other dir/x/y'])]
+    elif shape == 'single_top':
+        nfiles, dirs = 1, ['']
+    elif shape == 'deep_only':
+        dirs = ['sub/deep', 'sub/deep/er', 'other dir']
+    elif shape == 'one_per_dir':
+        dirs = None
+    elif shape == 'two_same_name':
+        nfiles, dirs, fixed = 2, None, 'same.dat'
+    elif shape == 'empty_files':
+        sizes, max_size = [0], 1
     for i in range(nfiles):
-        d = rnd.choice(dirs)
+        d = rnd.choice(dirs) if dirs is not None else 'dir%d/s' % i
         os.makedirs(os.path.join(root, d), exist_ok=True)
-        name = rnd.choice(['file%d.txt', 'data%d.bin', '.dot%d', 'with space %d', 'x%d.knz.txt', 'noext%d']) % i
+        name = fixed or (rnd.choice(['file%d.txt', 'data%d.bin', '.dot%d', 'with space %d', 'x%d.knz.txt', 'noext%d']) % i)
         n = rnd.choice(sizes) if rnd.random() < 0.6 else rnd.randrange(max_size)
         with open(os.path.join(root, d, name), 'wb') as fh:
             fh.write(gen_bytes(rnd, rnd.choice(['text', 'random', 'dna', 'runs', 'ramp']), n))
@@ -158,13 +177,13 @@ class Cli:
         self.nsys = 0
         os.makedirs(root, exist_ok=True)
 
-    def run(self, args, strace=None, stdin=None, stdout=None, timeout=600):
+    def run(self, args, strace=None, stdin=None, stdout=None, timeout=600, cwd=None):
         cmd = [self.bin] + args
         if strace:
             cmd = ['strace', '-f', '-y', '-s', '0', '-e', 'trace=openat,write,pwrite64,unlink,unlinkat,rename,renameat,renameat2,truncate,ftruncate',
                    '-o', strace] + cmd
         try:
-            p = subprocess.run(cmd, stdin=stdin, stdout=stdout or subprocess.PIPE, stderr=subprocess.STDOUT, timeout=timeout)
+            p = subprocess.run(cmd, stdin=stdin, stdout=stdout or subprocess.PIPE, stderr=subprocess.STDOUT, timeout=timeout, cwd=cwd)
         except subprocess.TimeoutExpired:
             return 124, 'timeout'
         out = p.stdout.decode('utf-8', 'replace') if p.stdout else ''
@@ -174,10 +193,13 @@ class Cli:
         self.events.append(e)
 
     # ---- scenarios --------------------------------------------------------------------------------
-    def inplace_rm(self, rnd, k, opts, desc):
+    def inplace_rm(self, rnd, k, opts, desc, shape='random'):
         """compress a tree in place with --rm, decompress it in place with --rm: the tree must come back"""
         t = os.path.join(self.root, 't%d' % k)
-        snap = make_tree(t, rnd, rnd.randint(3, 9), max_size=60000 if any(x in ' '.join(opts) for x in ('-l 7', '-l 8', '-l 9', 'TPAQ', 'CM')) else 150000)
+        snap = make_tree(t, rnd, rnd.randint(3, 9), max_size=60000 if any(x in ' '.join(opts) for x in ('-l 7', '-l 8', '-l 9', 'TPAQ', 'CM')) else 150000,
+                         shape=shape)
+        if shape != 'random':
+            desc += ' tree=' + shape
         log1, log2 = t + '.c.strace', t + '.d.strace'
         pairs = [(os.path.join(t, r), os.path.join(t, r) + '.knz') for r in snap]
         rid = len(self.events)
@@ -205,10 +227,12 @@ class Cli:
             if os.path.exists(f):
                 os.remove(f)
 
-    def to_dir(self, rnd, k, opts, desc, force=True):
+    def to_dir(self, rnd, k, opts, desc, force=True, shape='random'):
         """compress a tree into another directory, decompress into a third one; inputs must stay untouched"""
         t = os.path.join(self.root, 'd%d' % k)
-        snap = make_tree(t, rnd, rnd.randint(3, 8))
+        snap = make_tree(t, rnd, rnd.randint(3, 8), shape=shape)
+        if shape != 'random':
+            desc += ' tree=' + shape
         o1, o2 = t + '.out', t + '.back'
         os.makedirs(o1, exist_ok=True)      # the tool requires an existing output directory
         os.makedirs(o2, exist_ok=True)
@@ -228,6 +252,28 @@ class Cli:
         self.runs += 2
         if os.path.exists(log1):
             os.remove(log1)
+
+    def path_forms(self, rnd, k, opts, desc):
+        """the same tree named in the ways a shell user names a directory (./dir, dir/, dir//, a/./dir, dir/../dir, absolute, '.'):
+        the round trip into other directories must restore every file under its own relative path"""
+        base = os.path.join(self.root, 'p%d' % k)
+        t = os.path.join(base, 'top', 'src')
+        snap = make_tree(t, rnd, rnd.randint(2, 5), max_size=30000, shape=rnd.choice(['random', 'deep_only', 'single_nested']))
+        forms = [('./top/src', base), ('top/src/', base), ('top//src', base), ('top/./src', base), ('top/src/../src', base), (t, None), ('.', t),
+                 ('./', t), ('../src', t), ('src', os.path.join(base, 'top'))]
+        for fi, (form, cwd) in enumerate(forms):
+            o1, o2 = os.path.join(base, 'o1_%d' % fi), os.path.join(base, 'o2_%d' % fi)
+            os.makedirs(o1)
+            os.makedirs(o2)
+            rc1, out1 = self.run(['-c', '-i', form, '-o', o1, '-f'] + opts, cwd=cwd)
+            # the compressed tree is named in a non-canonical way too
+            dform, dcwd = [('./' + os.path.basename(o1), base), (o1 + '/', None), (o1, None), ('.', o1)][fi % 4]
+            rc2, out2 = self.run(['-d', '-i', dform, '-o', o2, '-f', '-v', '0'], cwd=dcwd)
+            back = tree_digest(o2)
+            self.emit({'ev': 'INPUTS', 'same': tree_digest(t) == snap, 'desc': desc})
+            self.emit({'ev': 'TREE', 'exitc': rc1, 'exitd': rc2, 'equal': back == snap, 'desc': '%s input named %r, compressed tree named %r' % (desc, form, dform),
+                       'detail': (out1[-300:] if rc1 else '') + (out2[-300:] if rc2 else '') + ('' if back == snap else ' restored: %s' % sorted(back)[:6])})
+            self.runs += 2
 
     def single_and_pipes(self, rnd, k, opts, desc):
         d = os.path.join(self.root, 's%d' % k)
